@@ -244,6 +244,16 @@ func (in *Interp) onPanic(e *GoPanic) {
 	in.reportFailure("panic-free", "panic", e.Msg, e.At, nil)
 }
 
+// harnessListed: name occurs in the comma-separated list
+func harnessListed(list, name string) bool {
+	for _, h := range strings.Split(list, ",") {
+		if strings.TrimSpace(h) == name {
+			return true
+		}
+	}
+	return false
+}
+
 // reportFailure extracts a model for the current path condition (plus extra) and records a Failure.
 func (in *Interp) reportFailure(id, kind, msg, where string, extra []*smt.Term) bool {
 	x := in.X
@@ -251,7 +261,7 @@ func (in *Interp) reportFailure(id, kind, msg, where string, extra []*smt.Term) 
 	// known findings: find those attached to this assertion
 	var known []KnownFinding
 	for _, k := range x.Known {
-		if k.Status == "known" && k.AssertID == id && (k.Harness == "" || k.Harness == x.Harness) {
+		if k.Status == "known" && k.AssertID == id && (k.Harness == "" || harnessListed(k.Harness, x.Harness)) {
 			known = append(known, k)
 		}
 	}
